@@ -1434,8 +1434,9 @@ REGISTRY = {
                    "values and boolean flips of the selected track's segments; both run through the real binary with 1 thread",
                    extra_fn=c13_extra), allow_axioms=(),
         explanation="C13: two exports that agree on the event structure and, for every course and registration, on course_data / reg_data of "
-                    "the selected track (nr, shortname, sizes, fields, the track's segment entry; the part's status entry, the two names, the "
-                    "track's entry) give the same result of the transcription Json.read_fields -- proved through the refinement to the declarative "
+                    "the SELECTED part and track only (CdeInvariance.selected = find_track; nr, shortname, sizes, fields, the track's segment entry; "
+                    "the part's status entry, the two names, the track's entry; C13_applies: a twin pair differing in another track's data "
+                    "satisfies the hypotheses) give the same result of the transcription Json.read_fields -- proved through the refinement to the declarative "
                     "specification (CdeRefine, CdeInvariance); C13_assigned_irrelevant / C13_cancelled_irrelevant: without the respective option "
                     "existing assignments / the cancelled flag do not enter.  Every generated twin pair is additionally evaluated in Coq and run "
                     "through the real binary: verdict, score and written assignments/segments are identical.",
@@ -1524,6 +1525,8 @@ REGISTRY = {
                     "C10_fixed_node / _fixed_total / _fixed_answered (current code: no panic site 1-10 is reachable for any generated subproblem, "
                     "every subproblem is answered, no worker dies -- hypotheses: valid instance and the size bound the program checks itself); "
                     "C10_prealloc (panic site 11, the pre-allocation with util::binom -- defect D15, fixed by f71c4f2: no overflow, capacity <= 24310); "
+                    "C10_scores_fit_u32 (the score of every node answer, Infeasible included, is within u32), C10_executed_positive (the divisor of "
+                    "the statistics line is >= 1), C10_rows_checker (the size clause on the problem, both formats, implies SizeOK); "
                     "C10_document_* / C10_export_valid (accepted documents are valid instances up to three unchecked clauses). "
                     "The real binary is run on generated valid instances: exit 0 with a well-formed output or exit 1 with the message and "
                     "no output, no panic, no timeout; node-, gate- and solve-level outcomes compared with the model (debug build: overflow "
